@@ -93,12 +93,33 @@ class HwBase(IntEnum, metaclass=ProtocolEnumMeta):
 class HwDerived(HwBase):
     One = 1
     Two = 2
+
+
+class HwHolder:
+    class HwNested(IntEnum, metaclass=ProtocolEnumMeta):
+        """declared inside a class: __qualname__ differs from __name__"""
+        Inner = 0
+        Outer = 2
+
+
+def _make_local():
+    class HwLocal(IntEnum, metaclass=ProtocolEnumMeta):
+        """declared inside a function"""
+        Here = 1
+        There = 3
+    return HwLocal
+
+
+HwNested = HwHolder.HwNested
+HwLocal = _make_local()
 '''
 HOOKED = [
     ("HwMissingHook", [(0, "North"), (1, "South")], "hw/missing-hook"),
     ("HwInitHook", [(0, "Wave"), (1, "Bow"), (7, "Dance")], "hw/init-hook"),
     ("HwTupleMembers", [(3, "Sword"), (4, "Shield")], "hw/tuple-members"),
     ("HwDerived", [(1, "One"), (2, "Two")], "hw/derived"),
+    ("HwNested", [(0, "Inner"), (2, "Outer")], "hw/nested-in-class"),
+    ("HwLocal", [(1, "Here"), (3, "There")], "hw/local-to-function"),
 ]
 SPECIAL = [0, 1, 2, 3, 251, 252, 253, 254, 255, 256, 64007, 64008, 64009, 64010, 16194276, 16194277, 253 ** 4 - 1,
            253 ** 4, 2 ** 31, 2 ** 63, 2 ** 64 + 1, -1, -2, -253]
